@@ -244,6 +244,10 @@ func (ls *LanceroSource) updateChanOrderMap() {
 // ConfigureMixFraction sets the MixFraction potentially for many channels, returns the list of current mix values
 // mix = fb + errorScale*err
 func (ls *LanceroSource) ConfigureMixFraction(mfo *MixFractionObject) ([]float64, error) {
+	if len(mfo.ChannelIndices) != len(mfo.MixFractions) {
+		return nil, fmt.Errorf("have %d ChannelIndices but %d MixFractions, want equal numbers",
+			len(mfo.ChannelIndices), len(mfo.MixFractions))
+	}
 	for _, channelIndex := range mfo.ChannelIndices {
 		if channelIndex >= len(ls.Mix) || channelIndex < 0 {
 			return nil, fmt.Errorf("channelIndex %v out of bounds", channelIndex)
@@ -252,9 +256,27 @@ func (ls *LanceroSource) ConfigureMixFraction(mfo *MixFractionObject) ([]float64
 			return nil, fmt.Errorf("channelIndex %v is even, only odd channels (feedback) allowed", channelIndex)
 		}
 	}
-	ls.mixRequests <- mfo
-	current := <-ls.currentMix // retrieve current mix race-free
-	return current, nil
+	// Mix requests are answered by the data-production goroutines of a running source only.
+	// Do not wait for an answer that cannot come: the source might be stopped, or stop while we wait.
+	ls.sourceStateLock.Lock()
+	active := ls.sourceState == Active
+	runDone := ls.thisRunDone
+	requests, replies := ls.mixRequests, ls.currentMix // made anew by Sample() for each run
+	ls.sourceStateLock.Unlock()
+	if !active {
+		return nil, fmt.Errorf("cannot configure mix: the Lancero source is not active")
+	}
+	select {
+	case requests <- mfo:
+	case <-runDone:
+		return nil, fmt.Errorf("cannot configure mix: the Lancero source has stopped")
+	}
+	select {
+	case current := <-replies: // retrieve current mix race-free
+		return current, nil
+	case <-runDone:
+		return nil, fmt.Errorf("cannot configure mix: the Lancero source has stopped")
+	}
 }
 
 // Sample determines key data facts by sampling some initial data.
